@@ -218,9 +218,17 @@ fn build<'a>(case: &Case, named_is_probe: bool) -> W<'a> {
                 };
                 s.token.approve(&counterparty, &named, &0, &e);
             }
+            0 => {
+                // exhausted by a pull of the holder's whole balance (allowance = balance = 1000); the holder is funded
+                // again afterwards, the approval is still within its lifetime
+                s.token.approve(&counterparty, &named, &1000, &exp);
+                advance_ledgers(&env, 7);
+                s.token.transfer_from(&named, &counterparty, &named, &1000);
+                s.token.mint(&counterparty, &1000);
+            }
             k => {
                 // exhausted: the whole allowance was spent by its rightful spender - on the very ledger it expires at
-                // (4), or well before (5, 0)
+                // (4), or well before (5)
                 let e = env.ledger().sequence() + 20;
                 s.token.approve(&counterparty, &named, &500, &e);
                 advance_ledgers(&env, if k == 4 { 20 } else { 7 });
@@ -432,7 +440,7 @@ impl Property for C07 {
                 windows_open: amount % 5 == 0,
                 negative_amount: amount % 7 == 0,
                 sweep: None,
-                grantor_allowance_revoked: if without_grantor_allowance && amount % 2 == 1 { 1 + amount / 2 % 7 } else { 0 },
+                grantor_allowance_revoked: if without_grantor_allowance && amount % 2 == 1 { 1 + amount / 2 % 8 } else { 0 },
             })
             .boxed();
         match crate::sweep::strategy(crate::sweep::Rule::Spend) {
@@ -464,7 +472,7 @@ impl Property for C07 {
                             for amount in [3u8, 250] {
                                 v.push(Case { ep, principal: p, with_allowance_for_counterparty: false, amount, without_grantor_allowance: true, named_is_token_owner: owner, grantor_allowance_expired: expired , windows_open: false, negative_amount: false, sweep: None, grantor_allowance_revoked: 0 });
                                 if !expired {
-                                    for r in 1..8u8 {
+                                    for r in 1..9u8 {
                                         v.push(Case { ep, principal: p, with_allowance_for_counterparty: false, amount, without_grantor_allowance: true, named_is_token_owner: owner, grantor_allowance_expired: false, windows_open: false, negative_amount: false, sweep: None, grantor_allowance_revoked: r });
                                     }
                                 }
@@ -529,7 +537,7 @@ impl Property for C07 {
                     cx.count("must_fail");
                     cx.label("delegated_without_allowance");
                 if case.grantor_allowance_revoked != 0 && !case.grantor_allowance_expired {
-                    cx.label(match case.grantor_allowance_revoked % 8 { 1..=3 => "allowance_revoked_by_approving_zero", 6 | 7 => "unlimited_allowance_revoked_or_replaced_then_ledgers_pass", _ => "allowance_exhausted_by_its_spender" });
+                    cx.label(match case.grantor_allowance_revoked % 8 { 1..=3 => "allowance_revoked_by_approving_zero", 6 | 7 => "unlimited_allowance_revoked_or_replaced_then_ledgers_pass", 0 => "allowance_exhausted_by_a_whole_balance_pull_then_holder_refunded", _ => "allowance_exhausted_by_its_spender" });
                 }
                     let snap0 = snapshot(env);
                     ensure_p!(!call_via_probe(&w, &inv), "{:?}: a delegated spend by a contract succeeded although the holder has no usable allowance (never granted, expired, or revoked)", ep);
@@ -570,7 +578,7 @@ impl Property for C07 {
                 // delegated spend must fail whoever signs (the call cannot be recorded: it fails).
                 cx.label("delegated_without_allowance");
                 if case.grantor_allowance_revoked != 0 && !case.grantor_allowance_expired {
-                    cx.label(match case.grantor_allowance_revoked % 8 { 1..=3 => "allowance_revoked_by_approving_zero", 6 | 7 => "unlimited_allowance_revoked_or_replaced_then_ledgers_pass", _ => "allowance_exhausted_by_its_spender" });
+                    cx.label(match case.grantor_allowance_revoked % 8 { 1..=3 => "allowance_revoked_by_approving_zero", 6 | 7 => "unlimited_allowance_revoked_or_replaced_then_ledgers_pass", 0 => "allowance_exhausted_by_a_whole_balance_pull_then_holder_refunded", _ => "allowance_exhausted_by_its_spender" });
                 }
                 let w = build(case, false);
                 let env = &w.s.env;
